@@ -44,7 +44,10 @@ InnerT == IF DocSet = "small" THEN {N1, A0, Arr(<<N1, N2>>), Oa(N1), Oab(N2, N1)
           ELSE {N1, Sa, A0, O0, Arr(<<N1, N2>>), Oa(N1), Oab(N2, N1), Oa(Arr(<<N1, N2>>))}
 DocsTriples == {N1} \cup {Arr(s) : s \in SeqsUpTo(InnerT, 2)} \cup {Oab(x, y) : x \in InnerT, y \in InnerT} \cup Deep
 DocsSpell == IF Spellings \in {"all", "all64"} THEN {Obj(<<KV(ka, N1), KV(kE, Oa(N2))>>), Arr(<<Obj(<<KV(kE, N1)>>)>>)} ELSE {}
-Docs == IF DocSet = "tiny" THEN Deep ELSE (IF Scope \in {"pairs", "extras"} THEN DocsPairs ELSE DocsTriples) \cup DocsSpell
+\* "rec": sibling subtrees of the same shape, two levels of them: a nested `..` walks many similar subtrees in one retrieval
+RecTree(k) == Obj(<<KV(kc, Oa(Ob(Num(1000 * k)))), KV(kd, Oa(Ob(Num(1000 * (k + 1))))), KV(ke, Oa(Oab(N1, Num(1000 * (k + 2)))))>>)
+RecDocs == { Obj(<<KV(kc, RecTree(0)), KV(kd, RecTree(3))>>), Arr(<<RecTree(0), RecTree(3), RecTree(6)>>) }
+Docs == IF DocSet = "rec" THEN RecDocs ELSE IF DocSet = "tiny" THEN Deep ELSE (IF Scope \in {"pairs", "extras"} THEN DocsPairs ELSE DocsTriples) \cup DocsSpell
 
 Pa == Cur(<<Nm(ka)>>)   Pb == Cur(<<Nm(kb)>>)
 Queries == {
@@ -103,7 +106,8 @@ SigmaTriples == {Nm(ka), Nm(kb), Wild, Multi(<<Nm(ka), Nm(kb)>>), Multi(<<Wild, 
 \* non-ASCII key for the spelling checks
 SigmaSpell == IF Spellings \in {"all", "all64"} THEN {Nm(kE), Multi(<<Nm(kE), Nm(ka)>>)} ELSE {}
 SigmaExtras == {Nm(ka), Nm(kb), Wild, Un(<<Idx(0)>>), Multi(<<Nm(ka), Nm(kb)>>), Un(<<Sl(0, TRUE, 0, TRUE, 1, TRUE)>>)} \cup {Flt(q) : q \in QueriesX}
-Sigma == (IF Scope = "pairs" THEN SigmaPairs ELSE IF Scope = "extras" THEN SigmaExtras ELSE SigmaTriples) \cup SigmaSpell
+SigmaRec == {Nm(ka), Nm(kb), Wild, Multi(<<Nm(kc), Nm(kd)>>)}
+Sigma == (IF Scope = "recrec" THEN SigmaRec ELSE IF Scope = "pairs" THEN SigmaPairs ELSE IF Scope = "extras" THEN SigmaExtras ELSE SigmaTriples) \cup SigmaSpell
 
 F1 == {FF(Fn_f1), FF(Fn_fodd), FF(Fn_ferr), AF(Fn_g1), AF(Fn_gerr)}
 F2 == {FF(Fn_f2), AF(Fn_g2), FF(Fn_f3)}
